@@ -188,7 +188,8 @@ pub fn catch<R, F: FnOnce() -> R + std::panic::UnwindSafe>(f: F) -> Result<R, St
 /// small dyadic number k / 2^j, |k| <= maxk, j <= 2; zero with probability 1/5
 pub fn gen_coef(r: &mut Rng, maxk: i64) -> f64 {
     if r.chance(1, 5) {
-        return 0.0;
+        // zero comes with either sign: -0.0 == 0.0, but sign tests (is_sign_positive, signum) tell them apart
+        return if r.chance(1, 6) { -0.0 } else { 0.0 };
     }
     let k = r.range(-maxk, maxk);
     let j = r.below(3) as i32;
@@ -204,7 +205,18 @@ pub fn gen_mat(r: &mut Rng, m: usize, n: usize, maxk: i64) -> Array2<f64> {
             a[[i, j]] = gen_coef(r, maxk);
         }
     }
+    // one matrix in five (of those with at least two rows and two columns) is stored column-major: same logical
+    // content, different memory order -- code that walks the raw buffer must not care
+    if m >= 2 && n >= 2 && r.chance(1, 5) {
+        a = to_f_order(&a);
+    }
     a
+}
+pub fn to_f_order(a: &Array2<f64>) -> Array2<f64> {
+    use ndarray::ShapeBuilder;
+    let mut f = Array2::<f64>::zeros((a.shape()[0], a.shape()[1]).f());
+    f.assign(a);
+    f
 }
 pub fn gen_aff(r: &mut Rng, outdim: usize, indim: usize, maxk: i64) -> AffFunc {
     // one in eight square maps is structured (identity / signed permutation-like diagonal / zero matrix, with a random
